@@ -15,6 +15,7 @@ pub mod c14;
 pub mod c15;
 pub mod c16;
 pub mod c17;
+pub mod c18;
 pub mod c19;
 pub mod dump;
 
@@ -37,6 +38,7 @@ pub fn run(id: &str, tier: &str) -> Option<i32> {
         "C15" => { let r = Report::new(id, tier, "model_checking"); c15::check(&r); r }
         "C16" => { let r = Report::new(id, tier, "model_checking"); c16::check(&r); r }
         "C17" => { let r = Report::new(id, tier, "model_checking"); c17::check(&r); r }
+        "C18" => { let r = Report::new(id, tier, "model_checking"); c18::check(&r); r }
         "C19" => { let r = Report::new(id, tier, "model_checking"); c19::check(&r); r }
         _ => return None,
     };
@@ -60,6 +62,7 @@ pub fn replay(id: &str, path: &str) -> Option<i32> {
         "C15" => Some(c15::replay(path)),
         "C16" => Some(c16::replay(path)),
         "C17" => Some(c17::replay(path)),
+        "C18" => Some(c18::replay(path)),
         "C19" => Some(c19::replay(path)),
         _ => None,
     }
